@@ -72,6 +72,11 @@ def r2_both_bounds_feed_interval(cx):
             if s["k"] == "assign" and s["rv"]["k"] == "use" and op_place(s["rv"]["op"]) is not None and place_is_field(root_place(cb, op_place(s["rv"]["op"])), "PeerData", "peer_timeout"):
                 okc = True
     cx.check("smallest-advertised", len(itmin) == 1 and okc, site_of(hk), "the bound is Iterator::min over every peer's advertised peer_timeout")
+    # ... computed afresh for every announcement: the scan over the current peers dominates the store of the next
+    # announcement time (a minimum cached under some key - peer count, a dirty flag - can be stale)
+    for bi, s in stores:
+        cx.check("smallest-advertised-is-fresh", bool(itmin) and all(hk.cfg.dominates(ci, bi) for ci, _ct in itmin), site_of(hk, span=s["span"]),
+                 "the minimum over the peers' advertised timeouts is recomputed on every path that schedules the next announcement")
     # PeerData.peer_timeout comes from the peer's node info
     anp = A.cloud_fn(prog, "add_new_peer")
     for (b, bi, s) in aggregates(prog, "PeerData"):
